@@ -4,6 +4,7 @@ import PraatModel.Py
 import PraatModel.Tier
 import PraatModel.Crop
 import PraatModel.Ops
+import PraatModel.Textgrid
 import PraatModel.Proto
 import PraatModel.Run
 import PraatModel.Lemmas.Tier
